@@ -70,6 +70,17 @@ inductive ArgClass where
 
 inductive FillClass where | ok | notRec | notFill deriving DecidableEq, Repr
 
+/-- the arguments of a metadata call that safe mode compares with root's, in generic slots (names and value
+    arrays are represented by numbers: equal numbers = equal contents) -/
+structure MetaArgs where
+  name : Nat := 0     -- the name argument
+  name2 : Nat := 0    -- second name (ncmpi_rename_att: the new name)
+  ident : Nat := 0    -- varid / dimid / (copy_att) the pair of variable IDs
+  xtype : Nat := 0    -- nc_type / no_fill / fill mode
+  len : Nat := 0      -- nelems / ndims / dimension size / (def_var_fill) 1 = a fill value is passed
+  vals : Nat := 0     -- attribute values / dimids / fill value
+  deriving DecidableEq, Repr
+
 /-- what may legitimately differ between the ranks entering one collective call -/
 structure RankInput where
   cls : ArgClass := .valid
@@ -91,6 +102,8 @@ structure RankInput where
       mode compares with root's -/
   metaErr : Nat := 0
   metaArg : Nat := 0
+  /-- the compared arguments of the safe-mode metadata calls of `MetaKind` -/
+  margs : MetaArgs := {}
   deriving DecidableEq, Repr
 
 /-- layout facts ncmpio__enddef decides on (shared: the header is kept identical on all ranks) -/
@@ -146,6 +159,11 @@ structure Cfg where
   numrecs : Nat := 0             -- the coherent in-memory record count (collective data mode)
   deriving DecidableEq, Repr
 
+/-- collective metadata calls whose arguments safe mode compares with root's -/
+inductive MetaKind where
+  | putAtt | defDim | defVar | renameDim | renameAtt | delAtt | copyAtt | setFill | defVarFill
+  deriving DecidableEq, Repr
+
 inductive Api where
   | getput (f : Form) (d : Dir) (vk : VarKind)
   | waitAll
@@ -156,6 +174,7 @@ inductive Api where
   | create
   | openFile (nChunks : Nat)
   | renameVar                                 -- in data mode: rewrites the header
+  | metaCall (k : MetaKind)                       -- the other collective metadata calls (define mode, or data mode: cfg.indef)
   deriving DecidableEq, Repr
 
 /-! ### reductions -/
@@ -403,6 +422,106 @@ def renameRet (cfg : Cfg) (world : List RankInput) (me : RankInput) : Int :=
      else minOf (world.map (metaCmp 256 root)))
   else metaCode me
 
+/-! ### safe-mode argument comparison of the metadata calls
+  src/dispatchers/attr_getput.m4 check_consistency_put, attribute.c (copy_att, rename_att, del_att), dimension.c (def_dim,
+  rename_dim), variable.c (def_var, def_var_fill), drivers/ncmpio/ncmpio_fill.c (ncmpio_set_fill, ncmpio_def_var_fill).
+  Every comparison is: MPI_Bcast root's argument (a name: its length, then the characters), `if (err == NC_NOERR &&
+  root's != mine) err = NC_EMULTIDEFINE_…`.  WHICH broadcasts happen is decided by ROOT's (broadcast) arguments only. -/
+structure CmpStep where
+  nb : Nat                                   -- number of MPI_Bcast calls of the step
+  differs : MetaArgs → MetaArgs → Bool       -- root's vs mine
+  code : Nat                                 -- magnitude of the NC_EMULTIDEFINE_* code
+
+/-- the comparison steps of the dispatcher, as a function of root's arguments -/
+def metaSteps (k : MetaKind) (root : MetaArgs) : List CmpStep :=
+  match k with
+  | .putAtt =>        -- name, varid, xtype, nelems, and the values iff root_nelems > 0
+      [⟨2, fun r m => r.name != m.name, 265⟩, ⟨1, fun r m => r.ident != m.ident, 269⟩,
+       ⟨1, fun r m => r.xtype != m.xtype, 266⟩, ⟨1, fun r m => r.len != m.len, 267⟩] ++
+      (if 0 < root.len then [⟨1, fun r m => r.len != m.len || r.vals != m.vals, 268⟩] else [])
+  | .defDim => [⟨2, fun r m => r.name != m.name, 254⟩, ⟨1, fun r m => r.len != m.len, 253⟩]
+  | .defVar =>        -- name, type, ndims, and the dimids iff root_ndims > 0
+      [⟨2, fun r m => r.name != m.name, 256⟩, ⟨1, fun r m => r.xtype != m.xtype, 259⟩,
+       ⟨1, fun r m => r.len != m.len, 257⟩] ++
+      (if 0 < root.len then [⟨1, fun r m => r.vals != m.vals, 258⟩] else [])
+  | .renameDim => [⟨2, fun r m => r.name != m.name, 254⟩, ⟨1, fun r m => r.ident != m.ident, 269⟩]
+  | .renameAtt => [⟨2, fun r m => r.name != m.name, 265⟩, ⟨2, fun r m => r.name2 != m.name2, 265⟩,
+                   ⟨1, fun r m => r.ident != m.ident, 269⟩]
+  | .delAtt => [⟨2, fun r m => r.name != m.name, 265⟩, ⟨1, fun r m => r.ident != m.ident, 269⟩]
+  | .copyAtt => [⟨2, fun r m => r.name != m.name, 265⟩, ⟨1, fun r m => r.ident != m.ident, 269⟩]
+  | .setFill => []
+  | .defVarFill => []
+
+/-- `err` of a rank after the steps (its own error is 0 here: the first Allreduce let it pass) -/
+def cmpErr (steps : List CmpStep) (root me : MetaArgs) : Int :=
+  match steps.find? (fun st => st.differs root me) with
+  | some st => -(st.code : Int)
+  | none => 0
+def stepsTrace (steps : List CmpStep) : Trace :=
+  (steps.map fun st => List.replicate st.nb CollTok.bcast).flatten
+
+/-- does the dispatcher have a safe-mode block with the first error Allreduce? (ncmpi_set_fill has none) -/
+def metaDispAllreduce : MetaKind → Bool
+  | .setFill => false
+  | _ => true
+/-- does the dispatcher compare arguments (bcasts + second Allreduce)? -/
+def metaDispCompares : MetaKind → Bool
+  | .setFill => false
+  | .defVarFill => false
+  | _ => true
+/-- safe-mode block of the driver (ncp->safe_mode && nprocs > 1): collectives as a function of root's arguments -/
+def metaDriverSafe (k : MetaKind) (root : MetaArgs) : Trace :=
+  match k with
+  | .defDim => []
+  | .setFill => [.bcast, .allreduce]
+  | .defVarFill => .bcast :: (if 0 < root.len then [.bcast] else []) ++ [.allreduce]
+  | _ => [.allreduce]
+/-- own error of a rank in the driver's comparison (ncmpio_set_fill / ncmpio_def_var_fill) -/
+def metaDriverOwn (k : MetaKind) (root me : MetaArgs) : Int :=
+  match k with
+  | .setFill => if root.xtype != me.xtype then -270 else 0
+  | .defVarFill =>
+      if root.ident != me.ident || root.xtype != me.xtype || (root.len == 0) != (me.len == 0) then -269
+      else if 0 < root.len && 0 < me.len && root.vals != me.vals then -272 else 0
+  | _ => 0
+/-- the calls that rewrite the header when made in data mode -/
+def metaWritesHeader : MetaKind → Bool
+  | .putAtt => true | .renameDim => true | .renameAtt => true | .copyAtt => true | .delAtt => true
+  | _ => false
+/-- what the driver executes once the arguments have been accepted (all ranks then hold root's arguments) -/
+def metaBody (k : MetaKind) (cfg : Cfg) (root : MetaArgs) : Trace :=
+  (match k with
+   | .defVarFill =>   -- a fill value for a variable in fill mode is stored through ncmpio_put_att("_FillValue"): its safe-mode Allreduce
+       if cfg.safe && decide (0 < root.len) && root.xtype == 0 then [CollTok.allreduce] else []
+   | _ => []) ++
+  (if !cfg.indef && metaWritesHeader k then writeHeader cfg else [])
+
+def metaTrace (rp : Repairs) (k : MetaKind) (cfg : Cfg) (world : List RankInput) (me : RankInput) : Trace :=
+  let root := (world.headD me).margs
+  let steps := metaSteps k root
+  if cfg.safe then
+    (if metaDispAllreduce k then [CollTok.allreduce] else []) ++
+      (if metaDispAllreduce k && decide (minOf (world.map metaCode) ≠ 0) then []
+       else
+         (if metaDispCompares k then stepsTrace steps ++ [.allreduce] else []) ++
+           (if metaDispCompares k && decide (minOf (world.map fun x => cmpErr steps root x.margs) ≠ 0) then []
+            else
+              metaDriverSafe k root ++
+                (if minOf (world.map fun x => metaDriverOwn k root x.margs) ≠ 0 then [] else metaBody k cfg root)))
+  else if metaCode me ≠ 0 then (if rp.metaErrJoins then metaBody k cfg root else [])
+  else metaBody k cfg root
+
+def metaRet (k : MetaKind) (cfg : Cfg) (world : List RankInput) (me : RankInput) : Int :=
+  let root := (world.headD me).margs
+  let steps := metaSteps k root
+  if cfg.safe then
+    (if metaDispAllreduce k && decide (minOf (world.map metaCode) ≠ 0) then minOf (world.map metaCode)
+     else if metaDispCompares k && decide (minOf (world.map fun x => cmpErr steps root x.margs) ≠ 0) then
+       minOf (world.map fun x => cmpErr steps root x.margs)
+     else if metaDriverOwn k root me.margs ≠ 0 then metaDriverOwn k root me.margs   -- `if (err == NC_NOERR) err = minE`
+     else minOf (world.map fun x => metaDriverOwn k root x.margs))
+  else metaCode me
+
 /-! ### the two model functions the properties talk about -/
 /-- the sequence of collective operations rank `me` executes inside `api` when the ranks of the file's
     communicator entered it with the inputs `world` -/
@@ -421,6 +540,7 @@ def localTrace (rp : Repairs) (api : Api) (cfg : Cfg) (world : List RankInput) (
   | .create => createTrace cfg
   | .openFile n => openTrace cfg n
   | .renameVar => renameTrace rp cfg world me
+  | .metaCall k => metaTrace rp k cfg world me
 
 /-- the code the call returns on rank `me` -/
 def localRet (api : Api) (cfg : Cfg) (world : List RankInput) (me : RankInput) : Int :=
@@ -432,6 +552,7 @@ def localRet (api : Api) (cfg : Cfg) (world : List RankInput) (me : RankInput) :
   | .create => modeRet 273 cfg world me
   | .openFile _ => modeRet 251 cfg world me
   | .renameVar => renameRet cfg world me
+  | .metaCall k => metaRet k cfg world me
   | _ => 0
 
 /-- the inputs on which a rank leaves the common sequence on the tree as it is (each disjunct is one defect) -/
@@ -442,6 +563,7 @@ def Trigger (rp : Repairs) (api : Api) (cfg : Cfg) (x : RankInput) : Prop :=
   | .fillVarRec => rp.fillVarRecErr = false ∧ cfg.safe = false ∧ fillOwnErr x ≠ 0
   | .enddef _ _ => rp.metaErrJoins = false ∧ cfg.safe = false ∧ x.metaErr ≠ 0
   | .renameVar => rp.metaErrJoins = false ∧ cfg.safe = false ∧ x.metaErr ≠ 0
+  | .metaCall _ => rp.metaErrJoins = false ∧ cfg.safe = false ∧ x.metaErr ≠ 0
   | _ => False
 
 instance (rp : Repairs) (api : Api) (cfg : Cfg) (x : RankInput) : Decidable (Trigger rp api cfg x) := by
